@@ -125,11 +125,13 @@ pub fn c14_exp_higher_correction_is_third_derivative() {
     }
     let vj = [J::constant(v[0]), J::constant(v[1]), J::constant(v[2])];
     let mut eta = [J::zero(); 3];
-    xh::higher_correction(&mut c, &mut eta, &ds, &vj);
-    // the Cholesky solve inside needs an invertible H (cut otherwise: eta is then set to 0 by the code)
+    // the Cholesky solve inside needs all leading principal minors of H nonzero (over the reals H is
+    // positive definite, so they are positive; in GF(p) `t <= 0` means t == 0 and the code then sets eta = 0)
+    let m2 = h[0][0].a * h[1][1].a - h[0][1].a * h[0][1].a;
     let det = h[0][0].a * (h[1][1].a * h[2][2].a - h[1][2].a * h[1][2].a) - h[0][1].a * (h[0][1].a * h[2][2].a - h[1][2].a * h[0][2].a)
         + h[0][2].a * (h[0][1].a * h[1][2].a - h[1][1].a * h[0][2].a);
-    kani::assume(det.0 != 0);
+    kani::assume(h[0][0].a.0 != 0 && m2.0 != 0 && det.0 != 0);
+    xh::higher_correction(&mut c, &mut eta, &ds, &vj);
     let two = F::new(2);
     let mut i = 0;
     while i < 3 {
@@ -215,10 +217,11 @@ pub fn c14_pow_higher_correction_is_third_derivative() {
     }
     let vj = [J::constant(v[0]), J::constant(v[1]), J::constant(v[2])];
     let mut eta = [J::zero(); 3];
-    ph::higher_correction(&mut c, &mut eta, &ds, &vj);
+    let m2 = h[0][0].a * h[1][1].a - h[0][1].a * h[0][1].a;
     let det = h[0][0].a * (h[1][1].a * h[2][2].a - h[1][2].a * h[1][2].a) - h[0][1].a * (h[0][1].a * h[2][2].a - h[1][2].a * h[0][2].a)
         + h[0][2].a * (h[0][1].a * h[1][2].a - h[1][1].a * h[0][2].a);
-    kani::assume(det.0 != 0);
+    kani::assume(h[0][0].a.0 != 0 && m2.0 != 0 && det.0 != 0);
+    ph::higher_correction(&mut c, &mut eta, &ds, &vj);
     let two = F::new(2);
     let mut i = 0;
     while i < 3 {
